@@ -82,7 +82,7 @@ def main():
             keys_before = {t.k: t.cache_key for t in tasks}
             E.MARK = job['mark']          # parent mutates the global after import, before running
             lab = labtech.Lab(storage=os.path.join(tmp, 's'), runner_backend=job['backend'],
-                              max_workers=job['mw'], context=dict(job['context']))
+                              max_workers=job['mw'], context=(None if job.get('ctx_none') else dict(job['context'])))
             req = [tasks[i] for i in job['req']]
             try:
                 res = lab.run_tasks(req, disable_progress=True, disable_top=True)
